@@ -17,6 +17,11 @@ class ExprArraySumModel(ExprDynamicModel):
     def width(self):
         return self.arr.get_sum_width()
     
+    def expr(self):
+        # Not cached here: the element chain follows the list's
+        # current content (the list caches it per size)
+        return self.arr.get_sum_expr()
+
     def build_expr(self):
         return self.arr.get_sum_expr()
     
